@@ -1,0 +1,40 @@
+// Copyright 2025 SCION Association
+//
+// Licensed under the Apache License, Version 2.0 (the "License");
+// you may not use this file except in compliance with the License.
+// You may obtain a copy of the License at
+//
+//   http://www.apache.org/licenses/LICENSE-2.0
+//
+// Unless required by applicable law or agreed to in writing, software
+// distributed under the License is distributed on an "AS IS" BASIS,
+// WITHOUT WARRANTIES OR CONDITIONS OF ANY KIND, either express or implied.
+// See the License for the specific language governing permissions and
+// limitations under the License.
+
+//go:build verif
+
+package dataplane
+
+import "github.com/scionproto/scion/private/ringbuf"
+
+// VerifPktRing exports the unexported pktRing (batching single-reader view of a ring buffer) to
+// the model-based verification harness. It adds no behavior.
+type VerifPktRing struct {
+	pr *pktRing
+}
+
+// VerifNewPktRing creates a packet ring as the encoder does.
+func VerifNewPktRing() *VerifPktRing { return &VerifPktRing{pr: newPktRing()} }
+
+// Ring returns the underlying ring buffer (to attach the ringbuf trace hook).
+func (v *VerifPktRing) Ring() *ringbuf.Ring { return v.pr.ring }
+
+func (v *VerifPktRing) Write(pkt []byte, block bool) int { return v.pr.Write(pkt, block) }
+func (v *VerifPktRing) Read(block bool) ([]byte, int)    { return v.pr.Read(block) }
+func (v *VerifPktRing) Close()                           { v.pr.Close() }
+
+const (
+	VerifPktRingSize  = ringSize
+	VerifPktRingBatch = batchSize
+)
